@@ -30,7 +30,11 @@ impl Shape {
 
     /// The number of elements of an array with the corresponding shape.
     pub fn elements(&self) -> usize {
-        self.iter().product()
+        // Saturate instead of overflowing for absurd shapes (e.g. from a corrupt file header):
+        // no data can have that many elements, so construction fails with a shape error
+        self.iter()
+            .try_fold(1usize, |acc, &n| acc.checked_mul(n))
+            .unwrap_or(usize::MAX)
     }
 
     pub(crate) fn index_from_flat_unchecked(&self, mut flat: usize) -> Vec<usize> {
